@@ -13,8 +13,8 @@ use crate::session::Op;
 
 /// Folders of the universe, relative to the project directory. `src/a` / `src/ab` share a name
 /// prefix; `src/a/__isograph` is a folder that merely has the artifact folder's name.
-pub const DIRS: [&str; 8] =
-    ["src", "src/a", "src/ab", "src/a/b", "src/c", "src/a/__isograph", "outside", "outside/d"];
+pub const DIRS: [&str; 9] =
+    ["src", "src/a", "src/ab", "src/a/b", "src/c", "src/a/__isograph", "outside", "outside/d", "outside/e"];
 /// File names. `x.ts` / `x.tsx` share a prefix; `.txt`, `.md`, `.bin` are not source files.
 pub const NAMES: [&str; 8] = ["x.ts", "x.tsx", "y.tsx", "z.js", "x.txt", "notes.md", "blob.bin", "home.ts"];
 pub const STRAYS: [&str; 2] = ["src/__isograph/stray.ts", "src/__isograph/notes.md"];
